@@ -49,6 +49,30 @@ def make_cases(seed, n):
     return cases
 
 
+def backend_search(res, h, seed, tier, fl):
+    """in-process search of the implementation for a state on which the three backends disagree (harness op `possearch`);
+    the budget is raised when a proof obligation or the correspondence is already broken"""
+    per = 100000 if tier == "quick" else 3000000
+    if res.broken:
+        per = max(per, 4000000)
+    lines = ["possearch %x %x" % ((seed * 1000003 + 7919 * k + 1) & M64, per) for k in range(NPROC)]
+    out = run_parallel(h, lines, timeout=3000)
+    res.extra["backend_search_states_" + fl] = per * NPROC
+    res.evaluations = getattr(res, "evaluations", 0)
+    for ln, r in zip(lines, out):
+        v = parse_reply(r)
+        if v is None:
+            res.broken.append(("backend search (%s)" % fl, "line: %s\nreply: %s" % (ln, r)))
+        elif v and v[0] == 1:
+            stt = " ".join(hx(x) for x in v[1:13])
+            res.failures.append({"key": "Pos_hash_full_result", "lines": ["Pos_hash_full_result_seq [ %s ] [ %s ]" % (" ".join(["0"] * 12), stt),
+                                                                         "Pos_hash_full_result [ %s ] [ %s ]" % (" ".join(["0"] * 12), stt)],
+                                 "expected": "the same 12 field elements from hash_full_result_seq, hash_full_result and hash_full_result_avx512",
+                                 "observed": "backends disagree on this state (found by possearch, %s build)" % fl,
+                                 "note": "search seed line: " + ln})
+            break
+
+
 def run(tier, seed):
     res = Result(PID, tier, seed)
     res.rule = ("12-element states over boundary words (all-zero, all p-1, all 2^64-1, non-canonical band) and random words; "
@@ -61,6 +85,7 @@ def run(tier, seed):
     drv, err = build_driver()
     if err:
         res.broken.append(("model driver build", err))
+        drv = NO_MODEL
     n = 120 if tier == "quick" else 6000
     for fl in (["O1"] if tier == "quick" else ["O1", "O3", "asan"]):
         h, err = build_harness(fl)
@@ -69,4 +94,6 @@ def run(tier, seed):
             continue
         if drv:
             corr_campaign(res, h, drv, make_cases(seed + len(fl), n if fl != "asan" else max(20, n // 10)), fl)
+        if fl != "asan":
+            backend_search(res, h, seed, tier, fl)
     return res.finish()
